@@ -198,12 +198,19 @@ pub fn run(p: &Params) -> Report {
     if let Some(r) = &p.replay {
         // the record pool is a function of the shard seed only; replays re-run the scenario seed
         let seed: u64 = r["replay"]["scenario_seed"].as_str().unwrap().parse().unwrap();
-        if r["replay"]["kind"] == "service" {
+        if r["replay"]["kind"] == "pending-update" {
+            scenario_pending_update(seed, &pool, &mut rep);
+        } else if r["replay"]["kind"] == "service" {
             scenario_service(seed, &pool, &mut rep);
         } else {
             scenario(seed, &pool, &mut rep);
         }
         return rep;
+    }
+    let u = p.budget(640, 32_000);
+    for i in 0..u {
+        let seed = p.shard_seed(0x16A_000 + i);
+        crate::util::guarded(&mut rep, seed, |rep| scenario_pending_update(seed, &pool, rep));
     }
     let m = p.budget(800, 40_000);
     for i in 0..m {
@@ -288,5 +295,206 @@ pub fn scenario_service(seed: u64, pool: &RecordPool, rep: &mut Report) {
         rep.max("service_same_subnet_in_table", max_table as u64);
         rep.max("service_same_subnet_in_bucket", max_bucket as u64);
         rep.fingerprint(&("service", max_table, max_bucket, n / 20));
+    });
+}
+
+/* ------------------------------------------------------------------------------------------ */
+/* R2, crafted: a pending candidate whose record moves into a crowded /24 before it is promoted */
+
+/// The state is built on a real `Discv5` with `ip_limit()` and a pending timeout of a few
+/// milliseconds (hook): `crowd` nodes of one /24 A spread over the table (at most two per bucket),
+/// the farthest bucket full of disconnected nodes of other subnets, a connected candidate P of
+/// another subnet waiting in that bucket's pending slot. A lookup peer then returns a newer record
+/// of P that lies in A. After the pending timeout the table is read (which promotes candidates)
+/// and the subnet counts are taken under the table lock.
+pub fn scenario_pending_update(seed: u64, pool: &RecordPool, rep: &mut Report) {
+    use crate::rig::r2::{runtime, Mode, ServiceCfg, ServiceRig};
+    use discv5::enr::NodeId;
+    use discv5::verif::{ConnectionDirection, HandlerIn, HandlerOut, RequestBody, Response, ResponseBody};
+    use discv5::{NodeAddress, RequestError};
+    let rt = runtime(seed);
+    rt.block_on(async {
+        let mut rng = Rng::new(seed ^ 0x16AD);
+        let pending_ms = 20u64;
+        discv5::verif::set_pending_timeout(Some(Duration::from_millis(pending_ms)));
+        let mut rig = ServiceRig::start(&mut rng, ServiceCfg { mode: Mode::Ip4, local_enr_has_addr: true, tweak: Box::new(|b| {
+            b.ip_limit();
+        }) }).await;
+        discv5::verif::set_pending_timeout(None);
+        let local: Id = rig.local_id.raw();
+        // identities by bucket
+        let mut by_dist: HashMap<u64, Vec<usize>> = HashMap::new();
+        for (k, v) in pool.variants.iter().enumerate() {
+            by_dist.entry(kb::log2(&local, &v[0].node_id().raw())).or_default().push(k);
+        }
+        for v in by_dist.values_mut() {
+            rng.shuffle(v);
+        }
+        let a = 1 + rng.usize(NSUB - 3); // the crowded subnet; a record in it is newer than one in a lower subnet
+        let p_sub = rng.usize(a); // the candidate's subnet before its record changes
+        let crowd = *rng.pick(&[10usize, 10, 10, 9, 8]);
+        // spread `crowd` nodes of A: one in the farthest bucket, the rest two per nearer bucket
+        let mut placed = 0usize;
+        let mut used: Vec<usize> = Vec::new();
+        let mut take = |d: u64, by_dist: &mut HashMap<u64, Vec<usize>>| -> Option<usize> { by_dist.get_mut(&d).and_then(|v| v.pop()) };
+        if let Some(k) = take(256, &mut by_dist) {
+            if rig.discv5.add_enr(pool.variants[k][a].clone()).is_ok() {
+                placed += 1;
+                used.push(k);
+            }
+        }
+        let mut d = 255u64;
+        while placed < crowd && d >= 247 {
+            for _ in 0..2 {
+                if placed < crowd {
+                    if let Some(k) = take(d, &mut by_dist) {
+                        if rig.discv5.add_enr(pool.variants[k][a].clone()).is_ok() {
+                            placed += 1;
+                            used.push(k);
+                        }
+                    }
+                }
+            }
+            d -= 1;
+        }
+        if placed < crowd {
+            rep.count("pending_update_scenarios_without_enough_buckets");
+            return;
+        }
+        // fill the farthest bucket with disconnected nodes of other subnets (two per subnet)
+        let mut others: Vec<usize> = (0..NSUB).filter(|s| *s != a).collect();
+        rng.shuffle(&mut others);
+        let mut in_far = 1usize;
+        let mut p_sub_in_far = 0usize;
+        'fill: for s in others.iter().cycle().take(2 * others.len()) {
+            if in_far >= 16 {
+                break 'fill;
+            }
+            // leave room for the candidate: at most one node of its subnet in this bucket
+            if *s == p_sub && p_sub_in_far >= 1 {
+                continue;
+            }
+            if let Some(k) = take(256, &mut by_dist) {
+                if rig.discv5.add_enr(pool.variants[k][*s].clone()).is_ok() {
+                    in_far += 1;
+                    if *s == p_sub {
+                        p_sub_in_far += 1;
+                    }
+                }
+            }
+        }
+        let full = rig.discv5.with_kbuckets(|t| t.read().buckets_iter().last().map(|b| b.iter().count()).unwrap_or(0)) == 16;
+        if !full {
+            rep.count("pending_update_scenarios_without_full_bucket");
+            return;
+        }
+        // the candidate: connected, of a subnet below A's variant index so that its A-variant is newer
+        let Some(pk) = take(256, &mut by_dist) else { return };
+        let p_old = pool.variants[pk][p_sub].clone();
+        if p_old.seq() >= pool.variants[pk][a].seq() {
+            // the no-IPv4 variant has the highest seq: use a lower subnet instead
+            rep.count("pending_update_scenarios_skipped");
+            return;
+        }
+        let p_sock = match p_old.udp4_socket() {
+            Some(s) => std::net::SocketAddr::V4(s),
+            None => {
+                rep.count("pending_update_scenarios_skipped");
+                return;
+            }
+        };
+        rig.emit(HandlerOut::Established(p_old.clone(), p_sock, ConnectionDirection::Outgoing)).await;
+        rig.settle().await;
+        let is_pending = rig.discv5.with_kbuckets(|t| t.read().buckets_iter().last().and_then(|b| b.pending().map(|p| p.value().node_id() == p_old.node_id())).unwrap_or(false));
+        // fail whatever the service wanted from its handler so far
+        for m in rig.take_handler_in() {
+            if let HandlerIn::Request(_, r) = m {
+                rig.emit(HandlerOut::RequestFailed(r.id.clone(), RequestError::Timeout)).await;
+            }
+        }
+        rig.settle().await;
+        rig.take_handler_in();
+        if !is_pending {
+            // the candidate was promoted already (the process stalled longer than the timeout)
+            rep.count("pending_update_scenarios_candidate_not_pending");
+            return;
+        }
+        // a lookup for P's id: every peer is asked for the distance P has from it
+        let p_id: Id = p_old.node_id().raw();
+        let lookup = tokio::spawn(rig.discv5.find_node(NodeId::new(&p_id)));
+        rig.settle().await;
+        let msgs = rig.take_handler_in();
+        let mut answered = false;
+        let p_new = pool.variants[pk][a].clone();
+        for m in msgs {
+            if let HandlerIn::Request(c, r) = m {
+                let ok = match &r.body {
+                    RequestBody::FindNode { distances } => distances.contains(&kb::log2(&c.node_id().raw(), &p_id)),
+                    _ => false,
+                };
+                if ok && !answered && c.node_id().raw() != p_id {
+                    answered = true;
+                    let na = NodeAddress::new(c.socket_addr(), c.node_id());
+                    rig.emit(HandlerOut::Response(na, Box::new(Response { id: r.id.clone(), body: ResponseBody::Nodes { total: 1, nodes: vec![p_new.clone()] } }))).await;
+                } else {
+                    rig.emit(HandlerOut::RequestFailed(r.id.clone(), RequestError::Timeout)).await;
+                }
+            }
+        }
+        rig.settle().await;
+        for _ in 0..10 {
+            let more = rig.take_handler_in();
+            if more.is_empty() {
+                break;
+            }
+            for m in more {
+                if let HandlerIn::Request(_, r) = m {
+                    rig.emit(HandlerOut::RequestFailed(r.id.clone(), RequestError::Timeout)).await;
+                }
+            }
+            rig.settle().await;
+        }
+        lookup.abort();
+        if !answered {
+            rep.count("pending_update_scenarios_no_request_to_answer");
+            return;
+        }
+        // the pending timeout passes; reading the table promotes what is due
+        std::thread::sleep(Duration::from_millis(pending_ms + 3));
+        let _ = rig.discv5.table_entries();
+        rig.settle().await;
+        let (t, b, p_in_table) = rig.discv5.with_kbuckets(|kb| {
+            let kb = kb.read();
+            let mut table: HashMap<[u8; 3], usize> = HashMap::new();
+            let mut worst = 0usize;
+            let mut found = false;
+            for bucket in kb.buckets_iter() {
+                let mut per: HashMap<[u8; 3], usize> = HashMap::new();
+                for n in bucket.iter() {
+                    if n.value.node_id() == p_old.node_id() {
+                        found = true;
+                    }
+                    if let Some(sn) = subnet_of(&n.value) {
+                        *per.entry(sn).or_default() += 1;
+                        *table.entry(sn).or_default() += 1;
+                    }
+                }
+                worst = worst.max(per.values().copied().max().unwrap_or(0));
+            }
+            (table.values().copied().max().unwrap_or(0), worst, found)
+        });
+        rep.evaluations += 1;
+        rep.count("pending_update_scenarios");
+        if p_in_table {
+            rep.count("pending_update_candidate_promoted");
+        }
+        let w = json!({"scenario_seed": seed.to_string(), "kind": "pending-update", "crowded_subnet": format!("{:?}", subnet(a)), "nodes_of_it_before": crowd, "candidate_subnet_before": p_sub, "candidate_promoted": p_in_table});
+        if t > 10 {
+            rep.violation("C16:table-subnet-limit", format!("after a pending candidate's record moved into a /24 that already had {crowd} nodes and the candidate was promoted, the table holds {t} nodes of that /24"), w.clone());
+        }
+        if b > 2 {
+            rep.violation("C16:bucket-subnet-limit", format!("a bucket holds {b} nodes of one /24 after a pending candidate was promoted"), w);
+        }
+        rep.fingerprint(&("pending-update", crowd, p_sub.min(NSUB), p_in_table, t.min(12)));
     });
 }
